@@ -18,24 +18,45 @@ RESCUE = ["winter_crypto::hash::rescue::rp62_248::Rp62_248", "winter_crypto::has
 BYTE = ["winter_crypto::hash::blake::Blake3_256<B>", "winter_crypto::hash::blake::Blake3_192<B>", "winter_crypto::hash::sha::Sha3_256<B>"]
 
 
-def method(p, trait, ty, name):
+def method(p, trait, ty, name, inline=False):
     for i in p.impls_of_trait(trait):
         if i.get("self_ty") == ty:
             for it in i["items"]:
                 if it["name"] == name and it["key"] in p.funcs:
-                    return p.fn(it["key"], inline=False)
+                    return p.fn(it["key"], inline=inline)
     raise AnchorLost("%s::%s for %s not found" % (trait.split("::")[-1], name, ty))
 
 
 def state_stores(f, name="state"):
     """assignments `state[idx] = v`: [(bb, stmt)]."""
-    locs = set(f.locals_named(name))
+    locs = {l for l in f.locals_named(name) if not f.local_ty(l).strip().startswith("&")} or set(f.locals_named(name))
+    # `&mut state` handed to a spliced private helper: the helper's parameter is an alias of the state
+    alias = set()
+    if getattr(f, "inlined", None):
+        for l in range(len(f.locals)):
+            if l in locs or not f.local_ty(l).strip().startswith("&mut ["):
+                continue
+            ds = [d for d in f.defs(l) if d.get("p") and len(d["p"]) == 1 and d["kind"] in ("assign", "call")]
+            seen, cur = set(), l
+            while len(ds) == 1 and ds[0]["kind"] == "assign" and cur not in seen:
+                seen.add(cur)
+                rv = ds[0]["rv"]
+                pl = op_place(rv[1]) if rv[0] == "use" else (rv[2] if rv[0] == "ref" else None)
+                if not pl or any(e != "*" for e in pl[1:]):
+                    break
+                cur = pl[0]
+                if cur in locs:
+                    alias.add(l)
+                    break
+                ds = [d for d in f.defs(cur) if d.get("p") and len(d["p"]) == 1 and d["kind"] in ("assign", "call")]
     out = []
     for bi, b in enumerate(f.blocks):
         if b.get("cleanup"):
             continue
         for s in b["s"]:
-            if s["k"] == "assign" and s["p"][0] in locs and len(s["p"]) == 2 and isinstance(s["p"][1], str) and s["p"][1].startswith("["):
+            if s["k"] != "assign" or not isinstance(s["p"][-1], str) or not s["p"][-1].startswith("["):
+                continue
+            if (s["p"][0] in locs and len(s["p"]) == 2) or (s["p"][0] in alias and len(s["p"]) == 3 and s["p"][1] == "*"):
                 out.append((bi, s))
     return out
 
@@ -92,7 +113,7 @@ def r1_length_absorbed(ctx):
     p = ctx.p
     for ty in RESCUE:
         for trait, nm in ((HASHER, "hash"), (EHASHER, "hash_elements")):
-            f = method(p, trait, ty, nm)
+            f = method(p, trait, ty, nm, inline=True)   # padding helpers are spliced
             perms = perm_blocks(f)
             if not perms:
                 raise AnchorLost("%s: no apply_permutation call" % f.key)
@@ -128,6 +149,21 @@ def r1_length_absorbed(ctx):
             ctx.ob("R1", "length-absorbed:%s::%s" % (ty.split("::")[-1], nm), ok, how, f)
 
 
+def _loop_carried(f, l):
+    """l is assigned several times, at least once with `l (+) something` (checked or plain addition of itself)."""
+    ds = [d for d in f.defs(l) if d["kind"] == "assign" and len(d["p"]) == 1]
+    if len(ds) < 2:
+        return False
+    for d in ds:
+        if d["rv"][0] != "use" or op_local(d["rv"][1]) is None:
+            continue
+        for dd in f.defs(op_local(d["rv"][1])):
+            if dd["kind"] == "assign" and dd["rv"][0] in ("bin", "cbin") and str(dd["rv"][1]).startswith("Add") and \
+                    any(op_local(o) is not None and l in f.copy_chain(op_local(o)) for o in dd["rv"][2:4]):
+                return True
+    return False
+
+
 def _end_marker(f):
     """a store of the constant ONE into state[.. + i] (running position) that precedes a permutation."""
     perms = perm_blocks(f)
@@ -137,11 +173,13 @@ def _end_marker(f):
         c = op_const(s["rv"][1])
         if c is None or not str(c.get("uneval_def", "")).endswith("::ONE"):
             continue
-        idx = int(s["p"][1][2:-1]) if s["p"][1].startswith("[_") else None
+        idx = int(s["p"][-1][2:-1]) if s["p"][-1].startswith("[_") else None
         if idx is None:
             continue
         sl = f.backward_slice([idx], at=s["_pos"])
-        if any(f.local_name(l) == "i" for l in sl["locals"]) and any(pb in f.reach([bi]) for pb in perms):
+        # the running position: a loop-carried counter (several definitions, one of them an increment of itself)
+        running = any(_loop_carried(f, l) for l in sl["locals"])
+        if running and any(pb in f.reach([bi]) for pb in perms):
             return ir.line_of(s["sp"]["at"])
     return None
 
@@ -349,7 +387,7 @@ def r4_byte_hashers(ctx):
     p = ctx.p
     for ty in BYTE:
         short = ty.split("::")[-1]
-        f = method(p, HASHER, ty, "hash")
+        f = method(p, HASHER, ty, "hash", inline=True)
         hs = _external_hash_calls(f)
         if not hs:
             raise AnchorLost("%s::hash: call into the external hash function not found" % short)
@@ -364,7 +402,7 @@ def r4_byte_hashers(ctx):
                     ok = True
         ctx.ob("R4", "whole-input-hashed:%s" % short, ok,
                "hash(bytes) hands the whole slice to the hash function" if ok else "hash(bytes) does not pass the unmodified input slice to the hash function", f)
-        g = method(p, HASHER, ty, "merge_with_int")
+        g = method(p, HASHER, ty, "merge_with_int", inline=True)
         hs = _external_hash_calls(g)
         ok, how = False, "merge_with_int does not hash seed bytes followed by value.to_le_bytes()"
         for bi, t in hs:
@@ -382,7 +420,7 @@ def r5_merge_many(ctx):
     p = ctx.p
     for ty in RESCUE + BYTE:
         short = ty.split("::")[-1]
-        f = method(p, HASHER, ty, "merge_many")
+        f = method(p, HASHER, ty, "merge_many", inline=True)   # private wrappers around the hash call are spliced
         ok, how = False, "merge_many is not the hash of the concatenated digests"
         for bi, t in f.calls():
             c = callee_of(t)
